@@ -92,7 +92,8 @@ func (self *Compiler) linkImports(program map[string]ast.AnalyzedProgram) {
 }
 
 func (self *Compiler) mangleFn(input string) string {
-	mangled := fmt.Sprintf("@%s_%s", self.currModule, input)
+	// (the separator cannot be part of an identifier: `b_c` of module `a` is not `c` of module `a_b`)
+	mangled := fmt.Sprintf("@%s:%s", self.currModule, input)
 	return mangled
 }
 
@@ -122,7 +123,7 @@ func (self *Compiler) mangleVar(input string) string {
 	}
 
 	// (the separator keeps `x` number 10 apart from `x1` number 0)
-	mangled := fmt.Sprintf("@%s_%s#%d", self.currModule, input, cnt)
+	mangled := fmt.Sprintf("@%s:%s#%d", self.currModule, input, cnt)
 	(*self.currScope)[input] = mangled
 
 	return mangled
